@@ -17,7 +17,7 @@ CLAIMS = {
          "score literals from a finite menu (formatting realises symbolic floats); reals instead of floats in E2", "DESIGN.md §3 C03"),
  "C04": (TECH,
          "With exec replaced by a stub (symbolic printed text, termination object chosen by symbolic bits from 13 handled classes incl. broken __str__/__repr__, argument-less KeyError/IndexError, SystemExit, RecursionError; the program may close its stdout or re-enter the sandbox) CrossHair confirms over all paths, for run/call/evaluate unthreaded and threaded, that the call returns normally, the failure is the sandbox's exception and exactly one triggered runtime feedback of the mapped class is attached; real compile() failures incl. a NUL byte are covered by a second obligation. Which programs produce which termination, student-line locations and name filters are outside the claim.",
-         "exec stub; termination menu is finite; CrossHair/z3 models; threaded obligations run the worker untraced; line locations decided on 10 + 32 concrete programs through the real exec (solver-enumerated menu, CPython's traceback as oracle)", "DESIGN.md §3 C04"),
+         "exec stub; termination menu is finite; CrossHair/z3 models; threaded obligations run the worker untraced; line locations decided on 16 + 32 + 8 concrete programs and two-file submissions through the real exec (solver-enumerated menus, CPython's traceback as oracle; incl. failures raised inside / through library frames and files that do not compile)", "DESIGN.md §3 C04"),
  "C05": (TECH,
          "Same stub with the menu extended by KeyboardInterrupt, GeneratorExit, a direct BaseException subclass and an internal-fault switch: CrossHair confirms over all paths that after run/call/evaluate returns or raises, sys.stdout, time.sleep, the sys.modules object and its contents (the program may delete / rebind / add entries or rebind the table) and - for each tracer style, with nested executions and a host trace function - sys.gettrace() are as before and the sandbox's stacks are empty, and (two-step histories) that the next execution captures exactly its own output.",
          "exec stub; timeouts / threads outside the claim; tracer-style obligations run untraced inside solver-enumerated menus; CrossHair/z3 models", "DESIGN.md §3 C05"),
@@ -31,10 +31,10 @@ CLAIMS = {
          "Inductive step: from every reachable symbolic abstract pre-state of a variable (z3 strings over yes/no/maybe) the real Tifa.visit is run on blocks from 7 shapes x 7 atoms and compared with a reference interpreter over the concretisation and all branch outcomes: issue labels and lines for every read, and the abstract post-state, are exact; match_rso is the exact join (z3, all pairs). Loops: no missed uninitialised read for while; the for-loop case is a recorded known finding. Nesting beyond the checked shapes is covered by the structural-induction argument only.",
          "semi-internal entry (planted name_map + Tifa.visit); reference interpreter is the oracle; independent branch conditions", "DESIGN.md §3 C09"),
  "C10": (TECH,
-         "For 63 pattern x student-shape pairs (quick: 39) over 14 shapes, plus 10 inherited sub-matching pairs, with symbolic identifiers and constants in the student tree, CrossHair confirms over all paths that every AstMap the real matcher returns passes an independent witness checker (kinds, primitive content in type and value, direct ordered children up to +/* swap, single identifier per _var_, __expr__ bound to the node at its position) and that absent concrete content yields no match; identifiers at the boundary of the placeholder syntax are shown to be treated as concrete code.",
+         "For 63 pattern x student-shape pairs (quick: 39) over 14 shapes, plus 10 inherited sub-matching pairs, a 12 x 12 menu of constants of every kind and class-name placeholders, with symbolic identifiers and constants in the student tree, CrossHair confirms over all paths that every AstMap the real matcher returns passes an independent witness checker (kinds, primitive content in type and value, direct ordered children up to +/* swap, single identifier per _var_, __expr__ bound to the node at its position) and that absent concrete content yields no match; identifiers at the boundary of the placeholder syntax are shown to be treated as concrete code.",
          "shape and pattern families are finite; trees with symbolic leaves are built with ast constructors; the witness checker is the oracle", "DESIGN.md §3 C10"),
  "C11": (TECH,
-         "Bounded-exhaustive: the solver enumerates (with a completeness verdict) a finite grid of 18 student templates x identifier/constant menus (all coincidences) x 10 derivation kinds x positions; for each choice the pattern is derived from the student's own program and the real find_matches must return a match binding the placeholder to what it replaced. The pattern has to be text, so the matcher runs on concrete values; the claim is exhaustive within the grid only.",
+         "Bounded-exhaustive: the solver enumerates (with a completeness verdict) a finite grid of 18 student templates x identifier/constant menus (all coincidences) x 10 derivation kinds x positions (optionally after other searches on the same parsed program), plus patterns cut from the program text through the public find_matches; for each choice the pattern is derived from the student's own program and the real find_matches must return a match binding the placeholder to what it replaced. The pattern has to be text, so the matcher runs on concrete values; the claim is exhaustive within the grid only.",
          "finite grid; matcher executed concretely (untraced) per enumerated path; CrossHair's path enumeration", "DESIGN.md §3 C11"),
  "C12": (TECH,
          "With the parser replaced by a stub raising error objects whose position attributes are symbolic within the shapes harvested from CPython on every run, CrossHair confirms over all paths (files <= 3 lines, section offsets <= 2, 3 exception classes) that verify never raises, reports exactly one syntax feedback on CPython's line shifted by the section offset (also when the parser refuses the text with UnicodeEncodeError / RecursionError / ValueError / MemoryError instead of a SyntaxError), and stores the parser's tree on acceptance. The parser's own accept/reject decision is CPython's and is not re-verified.",
